@@ -12,8 +12,10 @@ import sys, os, json, time, subprocess, hashlib, re, fcntl, importlib, random, s
 
 ROOT = os.path.dirname(os.path.abspath(__file__))
 COQ = os.path.join(ROOT, "coq")
-BUILD = os.path.join(ROOT, "build")
+BUILD = os.environ.get("VERIF_BUILD", os.path.join(ROOT, "build"))
 REPO = os.environ.get("VERIF_REPO", "/repo")
+# evidence/ and replays/ normally live in /verif; seeded-mutation runs (lib/seedtest.py) redirect them
+OUT = os.environ.get("VERIF_OUT", ROOT)
 sys.path.insert(0, os.path.join(ROOT, "lib"))
 
 GOENV = dict(os.environ, GOFLAGS="-mod=mod", GOPROXY="off")
@@ -124,6 +126,12 @@ def build_driver():
 
 def build_harness():
     h = os.path.join(ROOT, "harness")
+    if REPO != "/repo":
+        # a scratch copy of the implementation is being checked: build a private copy of the harness against it
+        priv = os.path.join(BUILD, "harness-src")
+        shutil.rmtree(priv, ignore_errors=True)
+        shutil.copytree(h, priv, ignore=shutil.ignore_patterns("gentables"))
+        h = priv
     shutil.copy(os.path.join(REPO, "go.sum"), os.path.join(h, "go.sum"))
     gomod = open(os.path.join(h, "go.mod")).read()
     want = re.sub(r"replace github.com/jotaen/klog => .*", "replace github.com/jotaen/klog => " + REPO, gomod)
@@ -257,7 +265,7 @@ def match_known(known, pid, suite, req, io=None, mod=None):
 
 
 def write_replay(pid, obj):
-    d = os.path.join(ROOT, "replays", pid)
+    d = os.path.join(OUT, "replays", pid)
     os.makedirs(d, exist_ok=True)
     h = hashlib.sha1(json.dumps(obj, sort_keys=True).encode()).hexdigest()[:12]
     p = os.path.join(d, h + ".json")
@@ -364,7 +372,7 @@ def run_check(pid, tier, seed):
         p = write_replay(pid, what)
         violations.append((p, " no-failing-input-found"))
     for p, suffix in violations:
-        print("VIOLATION property=%s replay=%s%s" % (pid, os.path.relpath(p, ROOT), suffix))
+        print("VIOLATION property=%s replay=%s%s" % (pid, os.path.relpath(p, ROOT) if OUT == ROOT else p, suffix))
     write_evidence(pid, tier, seed, thm, suites_ev, len(violations), t0,
                    known=[k["id"] for k, _ in known_lines], forb=forb)
     return 1 if violations else 0
@@ -390,7 +398,7 @@ def load_corpus(pid):
 
 
 def write_evidence(pid, tier, seed, thm, suites_ev, nviol, t0, known=(), forb=(), note=""):
-    os.makedirs(os.path.join(ROOT, "evidence"), exist_ok=True)
+    os.makedirs(os.path.join(OUT, "evidence"), exist_ok=True)
     nthm = len(thm["theorems"])
     obligations = nthm + len(suites_ev)
     discharged = (nthm if thm["compiled"] and not forb else 0) + sum(1 for s in suites_ev if s["mismatches"] == 0 and s["oracle_failures"] == 0)
@@ -424,7 +432,7 @@ def write_evidence(pid, tier, seed, thm, suites_ev, nviol, t0, known=(), forb=()
                         "differential runs support, and never replace, the theorems"],
         "wall_s": round(time.time() - t0, 2), "violations": nviol,
     }
-    json.dump(ev, open(os.path.join(ROOT, "evidence", pid + ".json"), "w"), indent=1)
+    json.dump(ev, open(os.path.join(OUT, "evidence", pid + ".json"), "w"), indent=1)
 
 
 def replay(pid, path):
